@@ -12,7 +12,7 @@ rationals, satisfy the exact-arithmetic specification the theorems are about:
   lsolve : x_i + Σ_{j<i} M(i,j) x_j = b_i;   usolve : Σ_{j≥i} M(i,j) x_j = b_i;
   matvec : y'_k = y_k + Σ_j M(k,j) v_j;
   snode  : column jcol of the supernode = unit lower solve on the diagonal block rows, original −
-           tempv_in − L21·u below, `dense` zero on the rows of the supernode and unchanged elsewhere,
+           tempv_in − L21·u below (no update at all when jcol = fsupc), `dense` zero on the rows of the supernode and unchanged elsewhere,
            `tempv` zero on 0..nrow-1, `lusup` unchanged outside the column, `xlusup[jcol+1]` set.
 -/
 namespace Slu.Drv.MyBlas2
@@ -92,7 +92,7 @@ def propQ (c : Case) (dec : String → Array Q) : Option String :=
     (firstBad nsupc "snode_bmod: unit lower system fails in row" fun i =>
       lu'[ufirst + i]! + sumN i (fun r => lu[luptr + r * nsupr + i]! * lu'[ufirst + r]!) == d[lsub[istart + i]!]!).orElse fun _ =>
     (firstBad (nsupr - nsupc) "snode_bmod: update below the diagonal block fails in row" fun i =>
-      lu'[ufirst + nsupc + i]! == d[lsub[istart + nsupc + i]!]! - (t[i]! + sumN nsupc (fun r => lu[luptr + r * nsupr + nsupc + i]! * lu'[ufirst + r]!))).orElse fun _ =>
+      lu'[ufirst + nsupc + i]! == d[lsub[istart + nsupc + i]!]! - ((if fsupc < jcol then t[i]! else 0) + sumN nsupc (fun r => lu[luptr + r * nsupr + nsupc + i]! * lu'[ufirst + r]!))).orElse fun _ =>
     (firstBad lu.size "snode_bmod: lusup changed outside column jcol at" fun p => (ufirst ≤ p && p < ufirst + nsupr) || lu'[p]! == lu[p]!).orElse fun _ =>
     (firstBad d.size "snode_bmod: dense wrong at" fun r => if isRow r then d'[r]! == 0 else d'[r]! == d[r]!).orElse fun _ =>
     (firstBad t.size "snode_bmod: tempv wrong at" fun i => if fsupc < jcol && i < nsupr - nsupc then t'[i]! == 0 else t'[i]! == t[i]!).orElse fun _ =>
